@@ -6,8 +6,10 @@ EXTENDS DER
 CONSTANTS Alphabet, MaxLen
 VARIABLES input, pst
 dvars == <<input, pst>>
+\* states that can no longer reach acceptance within MaxLen are not extended (they are still checked)
+Feasible == pst.stage = "bad" \/ (pst.seqleft <= MaxLen - Len(input) /\ pst.left <= MaxLen - Len(input))
 DInit == input = << >> /\ pst = PInit
-DNext == /\ pst.stage # "bad" /\ Len(input) < MaxLen
+DNext == /\ pst.stage # "bad" /\ Len(input) < MaxLen /\ Feasible
          /\ \E b \in Alphabet : input' = Append(input, b) /\ pst' = Step(pst, b)
 DSpec == DInit /\ [][DNext]_dvars
 
